@@ -163,6 +163,7 @@ static void one_execution( const Case& c, const std::vector< int >& pre, bool ve
    }
    else {
       report( S.hook_prop, "memory access outside the input buffer (guard page fault)|" + innermost_rule_name(), c, "", false );
+      if( std::string( S.hook_prop ) != "C03" ) report( "C03", "memory access outside the input buffer (guard page fault)|" + innermost_rule_name(), c, "", false );
       L.frames.clear();
       return;
    }
@@ -252,7 +253,10 @@ static void one_execution( const Case& c, const std::vector< int >& pre, bool ve
    // ---- online monitors
    if( L.c02 ) report( "C02", L.c02_msg, c, "", false );
    if( L.c03 ) report( "C03", L.c03_msg, c, "", false );
-   if( verif_c03 ) report( S.hook_prop, L.c03_hook.empty() ? std::string( verif_c03_what ) + "|top level" : L.c03_hook, c, "", false );
+   if( verif_c03 ) {
+      report( S.hook_prop, L.c03_hook.empty() ? std::string( verif_c03_what ) + "|top level" : L.c03_hook, c, "", false );
+      if( std::string( S.hook_prop ) != "C03" ) report( "C03", L.c03_hook.empty() ? std::string( verif_c03_what ) + "|top level" : L.c03_hook, c, "", false );
+   }
    if( L.c04 ) report( "C04", L.c04_msg, c, "", false );
    if( L.c06 ) report( "C06", strip_ns( L.c06_msg ) + ( ( g_ib | ( g_il - 1 ) | ( g_ic - 1 ) ) ? "|non-default initial counters" : "|default counters" ), c, L.c06_info );
    // ---- surviving action log (C04)
